@@ -84,6 +84,12 @@ theorem setsOf_eq {d : StructDef} (hgd : ∀ f ∈ d.fields, wfgdKind f = true) 
       rw [hnv]
       exact h
 
+theorem storedOk_of {S : Schema} {d : StructDef} (h : wfgdStruct S d = true) :
+    nonReservedOwn d = (ownFields d).filter (·.kind.carries) := by
+  unfold wfgdStruct storedOk at h
+  simp only [Bool.and_eq_true, beq_iff_eq] at h
+  exact h.1.2
+
 /-- a concrete class without base class and without forward conditions: whatever the interpreter decodes, the
     emitted `deserialize` returns -/
 theorem emittedDeserialize_nobase (hwf : WF S = true) (hwgd : WFGD S = true) {name : String} {d : StructDef}
@@ -115,7 +121,7 @@ theorem emittedDeserialize_nobase (hwf : WF S = true) (hwgd : WFGD S = true) {na
   unfold objectOf at hvs
   have hsets : setsOf d σ = .ok vs := by
     unfold setsOf
-    rw [hown]
+    rw [storedOk_of (WFGD_struct hwgd hfind), hown]
     exact setsOf_eq (fun f hf => (hgd f hf).2.2.1) _ (fun f hf => (List.mem_filter.mp hf).1)
       (fun f hf => by simpa using (List.mem_filter.mp hf).2)
       (fun x hx v hv => hS.loc x (by simpa using (List.mem_filter.mp hx).1) v hv) vs hvs
@@ -146,7 +152,7 @@ theorem emittedDeserialize_base (hwf : WF S = true) (hwgd : WFGD S = true) {name
     have h1 : ownRefsOk d = true := by
       unfold wfgdStruct at hgs
       simp only [Bool.and_eq_true] at hgs
-      exact hgs.1
+      exact hgs.1.1
     unfold ownRefsOk inheritedNames at h1
     simp only [hbase, Option.isSome_some, if_true, htake, List.all_eq_true, Bool.not_eq_true'] at h1
     intro f hf n hn x hx hxn
@@ -253,7 +259,7 @@ theorem emittedDeserialize_base (hwf : WF S = true) (hwgd : WFGD S = true) {name
   obtain ⟨ext, hext⟩ := decFrom_env d (ownFields d) da.fields.length st1 st hst2
   have hsetsA : setsOf da σ1 = .ok vsA := by
     unfold setsOf
-    rw [hownA]
+    rw [storedOk_of (WFGD_struct hwgd hfa), hownA]
     refine setsOf_eq (fun f hf => (hgda f hf).2.2.1) _ (fun f hf => (List.mem_filter.mp hf).1)
       (fun f hf => by simpa using (List.mem_filter.mp hf).2) (env := st.env) ?_ vsA hvsA
     intro x hx v hv
@@ -274,6 +280,7 @@ theorem emittedDeserialize_base (hwf : WF S = true) (hwgd : WFGD S = true) {name
     simp only [List.filter_nil, List.mapM_nil, pure, Except.pure, Except.ok.injEq] at hvsO
     subst hvsO
     unfold emitDeserialize setsOf
+    rw [storedOk_of hgs]
     simp [hownl, emitDesLoop, execItems, pure, Except.pure]
   | cons f rest =>
     have hinh : d.inherited = da.fields.length := by
@@ -324,6 +331,7 @@ theorem emittedDeserialize_base (hwf : WF S = true) (hwgd : WFGD S = true) {name
       rfl
     have hsetsO : setsOf d σ2 = .ok vsO := by
       unfold setsOf
+      rw [storedOk_of hgs]
       refine setsOf_eq (fun f hf => (hgd f hf).2.2.1) _
         (fun f hf => by rw [hsplit]; exact List.mem_append_right _ (List.mem_filter.mp hf).1)
         (fun f hf => by simpa using (List.mem_filter.mp hf).2) (env := st.env) ?_ vsO hvsO
